@@ -66,3 +66,27 @@ Definition E_three (r : Q) (k : nat) (R F M : hap) (f : hap -> Q) : Q := Emei r 
 Definition E_four (r : Q) (k : nat) (P1 P2 P3 P4 : hap) (f : hap -> Q) : Q :=
   Emei r (P1, P2) (fun g => Emei r (P3, P4) (fun h => Egen r k (g, h) f)).
 
+
+(** * Part C: multi-locus individuals with selfing (haplotypes = lists of allele values, one per locus) *)
+(** the gamete copies, locus by locus, the allele of the strand chosen by [src] *)
+Fixpoint pick (h1 h2 : list Q) (src : list bool) : list Q :=
+  match h1, h2, src with
+  | a :: h1', b :: h2', s :: src' => (if s then b else a) :: pick h1' h2' src'
+  | _, _, _ => []
+  end.
+(** one multi-locus meiosis of the individual (h1,h2): expectation over its exhaustively enumerated gametes *)
+Definition EmeiL (ps : list Q) (h1 h2 : list Q) (f : list Q -> Q) : Q := Egam ps (fun src => f (pick h1 h2 src)).
+(** k selfing generations (two independent meioses of the same individual each), then the doubled haploid's gamete *)
+Fixpoint EgenL (ps : list Q) (k : nat) (h1 h2 : list Q) (f : list Q -> Q) : Q :=
+  match k with
+  | O => EmeiL ps h1 h2 f
+  | S k' => EmeiL ps h1 h2 (fun g1 => EmeiL ps h1 h2 (fun g2 => EgenL ps k' g1 g2 f))
+  end.
+Definition EL_two (ps : list Q) (k : nat) (A B : list Q) : (list Q -> Q) -> Q := EgenL ps k A B.
+Definition EL_three (ps : list Q) (k : nat) (R F M : list Q) (f : list Q -> Q) : Q := EmeiL ps F M (fun g => EgenL ps k g R f).
+Definition EL_four (ps : list Q) (k : nat) (P1 P2 P3 P4 : list Q) (f : list Q -> Q) : Q :=
+  EmeiL ps P1 P2 (fun g => EmeiL ps P3 P4 (fun h => EgenL ps k g h f)).
+(** doubled-haploid trait value of a gamete for marker effects [u], and the covariance of two traits' values *)
+Definition dval (L : nat) (u g : list Q) : Q := 2 * sumQ (map (fun i => nth i u 0 * nth i g 0) (seq 0 L)).
+Definition covL (L : nat) (E : (list Q -> Q) -> Q) (u1 u2 : list Q) : Q :=
+  E (fun g => dval L u1 g * dval L u2 g) - E (dval L u1) * E (dval L u2).
